@@ -236,6 +236,15 @@ pub fn c03(c: &mut Ctx) {
                             c.v("C03", "ask_join-wrong-error", ret_seq, format!("ask_join of {mid} reported a cancelled task, script says {jo:?}"));
                         }
                     }
+                    (other, Some(jo)) => {
+                        // once the handler has returned its JoinHandle the ask part is over: the only
+                        // legitimate results are the task's output or its join error
+                        let handler_done = h.msgs.get(&mid).map(|m| m.hexit.iter().any(|x| x.3 == Out::Ok && x.0 < ret_seq)).unwrap_or(false);
+                        if handler_done && !matches!(other, Res::Unsupported | Res::NoHandle) {
+                            c.chk.hit("C03");
+                            c.v("C03", "ask_join-wrong-error", ret_seq, format!("ask_join of {mid}: the handler returned its JoinHandle (task scripted to end with {jo:?}) but ask_join returned {other:?}"));
+                        }
+                    }
                     _ => {}
                 }
             }
